@@ -99,15 +99,25 @@ impl Spec {
         }
         self.interleaved_be64(w);
     }
+    fn same(&self, bytes: &[u8], i: usize) -> bool {
+        i >= self.len || bytes[i] == self.buf[i]
+    }
+    /// byte-for-byte equality; 16 bytes per iteration so that harnesses need a small unwind bound
+    /// (a large bound multiplies the cost of the recursive drop glue of the error types)
     pub fn eq(&self, bytes: &[u8]) -> bool {
         if bytes.len() != self.len {
             return false;
         }
-        let mut i = 0;
         let mut ok = true;
-        while i < self.len {
-            ok = ok && bytes[i] == self.buf[i];
-            i += 1;
+        let mut k = 0;
+        while k < 12 && 16 * k < self.len {
+            let o = 16 * k;
+            ok = ok
+                && self.same(bytes, o) && self.same(bytes, o + 1) && self.same(bytes, o + 2) && self.same(bytes, o + 3)
+                && self.same(bytes, o + 4) && self.same(bytes, o + 5) && self.same(bytes, o + 6) && self.same(bytes, o + 7)
+                && self.same(bytes, o + 8) && self.same(bytes, o + 9) && self.same(bytes, o + 10) && self.same(bytes, o + 11)
+                && self.same(bytes, o + 12) && self.same(bytes, o + 13) && self.same(bytes, o + 14) && self.same(bytes, o + 15);
+            k += 1;
         }
         ok
     }
@@ -468,7 +478,7 @@ fn u3_float32_wire() {
 //@ checks: functional
 //@ covers: 1
 #[kani::proof]
-#[kani::unwind(20)]
+#[kani::unwind(10)]
 fn u3_float64() {
     let a: f64 = kani::any();
     let b: f64 = kani::any();
@@ -497,7 +507,7 @@ fn u3_float64() {
 //@ checks: functional
 //@ covers: 2
 #[kani::proof]
-#[kani::unwind(20)]
+#[kani::unwind(10)]
 fn u3_float64_wire() {
     let w: [u8; 16] = kani::any();
     let n: usize = kani::any();
@@ -526,7 +536,7 @@ fn u3_float64_wire() {
 //@ checks: functional
 //@ covers: 1
 #[kani::proof]
-#[kani::unwind(20)]
+#[kani::unwind(10)]
 fn u3_udim() {
     let a = UDim::new(f32any(), kani::any());
     let b = UDim::new(f32any(), kani::any());
@@ -556,7 +566,7 @@ fn u3_udim() {
 //@ checks: functional
 //@ covers: 2
 #[kani::proof]
-#[kani::unwind(20)]
+#[kani::unwind(10)]
 fn u3_udim_wire() {
     let w: [u8; 16] = kani::any();
     let n: usize = kani::any();
@@ -585,7 +595,7 @@ fn u3_udim_wire() {
 //@ checks: functional
 //@ covers: 1
 #[kani::proof]
-#[kani::unwind(36)]
+#[kani::unwind(10)]
 fn u3_udim2() {
     let a = UDim2::new(UDim::new(f32any(), kani::any()), UDim::new(f32any(), kani::any()));
     let b = UDim2::new(UDim::new(f32any(), kani::any()), UDim::new(f32any(), kani::any()));
@@ -618,7 +628,7 @@ fn u3_udim2() {
 //@ checks: functional
 //@ covers: 2
 #[kani::proof]
-#[kani::unwind(36)]
+#[kani::unwind(10)]
 fn u3_udim2_wire() {
     let w: [u8; 32] = kani::any();
     let n: usize = kani::any();
@@ -650,7 +660,7 @@ fn u3_udim2_wire() {
 //@ checks: functional
 //@ covers: 1
 #[kani::proof]
-#[kani::unwind(50)]
+#[kani::unwind(8)]
 fn u3_ray() {
     let a = Ray::new(v3any(), v3any());
     let b = Ray::new(v3any(), v3any());
@@ -687,7 +697,7 @@ fn u3_ray() {
 //@ checks: functional
 //@ covers: 2
 #[kani::proof]
-#[kani::unwind(50)]
+#[kani::unwind(8)]
 fn u3_ray_wire() {
     let w: [u8; 48] = kani::any();
     let n: usize = kani::any();
@@ -822,7 +832,7 @@ fn u3_brickcolor() {
 //@ checks: functional
 //@ covers: 1
 #[kani::proof]
-#[kani::unwind(28)]
+#[kani::unwind(10)]
 fn u3_color3() {
     let a = Color3::new(f32any(), f32any(), f32any());
     let b = Color3::new(f32any(), f32any(), f32any());
@@ -853,7 +863,7 @@ fn u3_color3() {
 //@ checks: functional
 //@ covers: 1
 #[kani::proof]
-#[kani::unwind(20)]
+#[kani::unwind(10)]
 fn u3_vector2() {
     let a = Vector2::new(f32any(), f32any());
     let b = Vector2::new(f32any(), f32any());
@@ -883,7 +893,7 @@ fn u3_vector2() {
 //@ checks: functional
 //@ covers: 1
 #[kani::proof]
-#[kani::unwind(28)]
+#[kani::unwind(10)]
 fn u3_vector3() {
     let a = v3any();
     let b = v3any();
@@ -913,7 +923,7 @@ fn u3_vector3() {
 //@ checks: functional
 //@ covers: 2
 #[kani::proof]
-#[kani::unwind(28)]
+#[kani::unwind(10)]
 fn u3_vector3_wire() {
     let w: [u8; 24] = kani::any();
     let n: usize = kani::any();
@@ -943,4 +953,689 @@ fn u3_vector3_wire() {
     std::mem::forget(shim);
     std::mem::forget(shimc);
     std::mem::forget(shim2d);
+}
+
+// ---------------------------------------------------------------- CFrame / OptionalCFrame
+//@include shared/rotid_contract.rs.inc
+
+/// Matrix3::to_basic_rotation_id replaced by its contract, with a concrete result *shape*.
+/// The harness announces, per call, the result it expects (`ROTID_PLAN`); the stub ASSERTS that
+/// this result satisfies the function's postcondition `post_rotid` for the actual argument and
+/// returns it. Because the postcondition determines the result uniquely (U6.rotid.unique) and the
+/// real function satisfies it (U6.rotid.sound), the real function returns exactly this value.
+/// (Returning an unconstrained value under `assume(post_rotid)` - what stub_verified does - makes
+/// the encoded length symbolic and exhausted 30 GB in CBMC's array post-processing; measured.)
+static mut ROTID_CALLS: usize = 0;
+static mut ROTID_PLAN: [Option<u8>; 2] = [None, None];
+fn rotid_planned(m: &Matrix3) -> Option<u8> {
+    unsafe {
+        let k = ROTID_CALLS;
+        ROTID_CALLS += 1;
+        let r = ROTID_PLAN[k];
+        assert!(post_rotid(m, r), "planned rotation id does not satisfy the contract of to_basic_rotation_id");
+        r
+    }
+}
+
+fn m3_of(t: &[[i8; 3]; 3]) -> Matrix3 {
+    Matrix3::new(
+        Vector3::new(t[0][0] as f32, t[0][1] as f32, t[0][2] as f32),
+        Vector3::new(t[1][0] as f32, t[1][1] as f32, t[1][2] as f32),
+        Vector3::new(t[2][0] as f32, t[2][1] as f32, t[2][2] as f32),
+    )
+}
+fn m3eq(a: &Matrix3, b: &Matrix3) -> bool {
+    v3eq(&a.x, &b.x) && v3eq(&a.y, &b.y) && v3eq(&a.z, &b.z)
+}
+fn spec_m3(s: &mut Spec, m: &Matrix3) {
+    // R00 R01 R02 R10 R11 R12 R20 R21 R22, untransformed little-endian f32
+    s.le_f32(m.x.x);
+    s.le_f32(m.x.y);
+    s.le_f32(m.x.z);
+    s.le_f32(m.y.x);
+    s.le_f32(m.y.y);
+    s.le_f32(m.y.z);
+    s.le_f32(m.z.x);
+    s.le_f32(m.z.y);
+    s.le_f32(m.z.z);
+}
+/// a matrix that is certainly not within epsilon of any axis-aligned basis (R00 > 2)
+fn general_m3() -> Matrix3 {
+    let m = Matrix3::new(v3any(), v3any(), v3any());
+    kani::assume(m.x.x > 2.0);
+    m
+}
+
+//@ obligation: U3.CFrame.enc
+//@ props: C01 C03
+//@ fns: serialize_properties[Type::CFrame]
+//@ kind: bounded
+//@ bound: column of 2 values: value 0 = any of the 24 documented rotations, value 1 = any matrix with R00 > 2 (general form); positions fully symbolic
+//@ checks: functional
+//@ covers: 1
+//@ timeout: 1200
+//@ note: modular: Matrix3::to_basic_rotation_id is replaced by its contract (rotid_planned: the announced result is asserted to satisfy the postcondition that U6.rotid.sound discharges and U6.rotid.unique shows to be deterministic). Round trip = this layout obligation composed with U3.CFrame.wire (decode of any wire bytes), which share the independent layout.
+#[kani::proof]
+#[kani::unwind(27)]
+#[kani::stub(rbx_dom_weak::types::Matrix3::to_basic_rotation_id, rotid_planned)]
+fn u3_cframe_enc() {
+    let id: u8 = kani::any();
+    let t = spec_rotation(id);
+    kani::assume(t.is_some());
+    let ra = m3_of(&t.unwrap());
+    let rb = general_m3();
+    let a = CFrame::new(v3any(), ra);
+    let b = CFrame::new(v3any(), rb);
+    let (v0, v1) = (Variant::CFrame(a), Variant::CFrame(b));
+    unsafe {
+        ROTID_PLAN = [Some(id), None];
+    }
+    let mut cb = newcb();
+    assert!(enc_CFrame(col2(&v0, &v1), &mut cb, &EncShim::empty()).is_ok());
+    assert!(unsafe { ROTID_CALLS } == 2);
+    let bytes = buffer_of(&cb);
+    // per value: rotation id, or 00 + nine floats; then the positions as a Vector3 array
+    let mut s = Spec::new();
+    s.u8(id);
+    s.u8(0);
+    spec_m3(&mut s, &rb);
+    s.rbx_f32([a.position.x, b.position.x]);
+    s.rbx_f32([a.position.y, b.position.y]);
+    s.rbx_f32([a.position.z, b.position.z]);
+    assert!(s.eq(bytes));
+    kani::cover!(true, "end of harness reached");
+    std::mem::forget(cb);
+}
+
+//@ obligation: U3.CFrame.wire
+//@ props: C01 C04 C13
+//@ fns: decode_prop_chunk[Type::CFrame/VariantType::CFrame]
+//@ kind: bounded
+//@ bound: column of 2 values: first rotation byte symbolic (any id incl. invalid ones, or 00 + nine floats), second value a documented id; wire truncated at any length
+//@ checks: functional
+//@ covers: 3
+//@ timeout: 1200
+//@ note: a foreign writer may store an explicit nine-float matrix that equals a basic rotation; it must come back as that matrix
+#[kani::proof]
+#[kani::unwind(12)]
+#[kani::stub(alloc::fmt::format, crate::chunk::__verif::fmt_stub)]
+fn u3_cframe_wire() {
+    let w: [u8; 62] = kani::any();
+    let n: usize = kani::any();
+    kani::assume(n <= 62);
+    let id0 = w[0];
+    // layout: [id0] (+36 bytes if id0 == 0) [id1] then 24 bytes of positions
+    let rot0 = if id0 == 0 { 37 } else { 1 };
+    let id1 = w[rot0];
+    let total = rot0 + 1 + 24;
+    kani::assume(id1 != 0);
+    let mut shim = shim2();
+    let r = dec_CFrame_CFrame(&w[..n], &TI2, &mut shim);
+    let valid = (id0 == 0 || spec_rotation(id0).is_some()) && spec_rotation(id1).is_some();
+    if n >= total {
+        assert!(r.is_ok() == valid);
+    }
+    if n < total && valid {
+        assert!(r.is_err());
+    }
+    if r.is_ok() {
+        let mut d = De::new(&w);
+        d.pos = 1;
+        let m0 = if id0 == 0 {
+            Matrix3::new(
+                Vector3::new(d.le_f32(), d.le_f32(), d.le_f32()),
+                Vector3::new(d.le_f32(), d.le_f32(), d.le_f32()),
+                Vector3::new(d.le_f32(), d.le_f32(), d.le_f32()),
+            )
+        } else {
+            m3_of(&spec_rotation(id0).unwrap())
+        };
+        let m1 = m3_of(&spec_rotation(id1).unwrap());
+        d.pos = rot0 + 1;
+        let x = d.rbx_f32::<2>();
+        let y = d.rbx_f32::<2>();
+        let z = d.rbx_f32::<2>();
+        assert!(out!(shim, 0, Variant::CFrame(c) => m3eq(&c.orientation, &m0) && feq(c.position.x, x[0]) && feq(c.position.y, y[0]) && feq(c.position.z, z[0])));
+        assert!(out!(shim, 1, Variant::CFrame(c) => m3eq(&c.orientation, &m1) && feq(c.position.x, x[1]) && feq(c.position.y, y[1]) && feq(c.position.z, z[1])));
+        assert!(once_each(&shim));
+    }
+    kani::cover!(r.is_ok() && id0 == 0, "explicit matrix form reached");
+    kani::cover!(r.is_ok() && id0 != 0, "id form reached");
+    kani::cover!(r.is_err(), "invalid or truncated input reached");
+    std::mem::forget(shim);
+}
+
+fn optionalcframe_enc(some_b: bool) {
+    // some_b concrete at every call site (the layout's shape must not be symbolic)
+    let ra = general_m3();
+    let a = CFrame::new(v3any(), ra);
+    let id: u8 = kani::any();
+    let t = spec_rotation(id);
+    kani::assume(t.is_some());
+    let rb = m3_of(&t.unwrap());
+    let bpos = v3any();
+    let b = if some_b { Some(CFrame::new(bpos, rb)) } else { None };
+    let (v0, v1) = (Variant::OptionalCFrame(Some(a)), Variant::OptionalCFrame(b));
+    unsafe {
+        ROTID_CALLS = 0;
+        // a valueless entry is written as the identity CFrame: id 02
+        ROTID_PLAN = [None, Some(if some_b { id } else { 0x02 })];
+    }
+    let mut cb = newcb();
+    assert!(enc_OptionalCFrame(col2(&v0, &v1), &mut cb, &EncShim::empty()).is_ok());
+    assert!(unsafe { ROTID_CALLS } == 2);
+    let bytes = buffer_of(&cb);
+    // 10, CFrame array (valueless entries written as the identity CFrame at the origin), 02, one bool per value
+    let mut s = Spec::new();
+    s.u8(0x10);
+    s.u8(0);
+    spec_m3(&mut s, &ra);
+    s.u8(if some_b { id } else { 0x02 });
+    let (bx, by, bz) = if some_b { (bpos.x, bpos.y, bpos.z) } else { (0.0, 0.0, 0.0) };
+    s.rbx_f32([a.position.x, bx]);
+    s.rbx_f32([a.position.y, by]);
+    s.rbx_f32([a.position.z, bz]);
+    s.u8(0x02);
+    s.u8(1);
+    s.u8(if some_b { 1 } else { 0 });
+    assert!(s.eq(bytes));
+    std::mem::forget(cb);
+}
+
+//@ obligation: U3.OptionalCFrame.enc
+//@ props: C01 C03
+//@ fns: serialize_properties[Type::OptionalCFrame]
+//@ kind: bounded
+//@ bound: columns of 2 values: [Some(general matrix, R00 > 2), Some(documented rotation)] and [Some(general matrix), None]
+//@ checks: functional
+//@ covers: 1
+//@ timeout: 1200
+//@ note: modular: Matrix3::to_basic_rotation_id replaced by its contract (rotid_planned)
+#[kani::proof]
+#[kani::unwind(27)]
+#[kani::stub(rbx_dom_weak::types::Matrix3::to_basic_rotation_id, rotid_planned)]
+fn u3_optionalcframe_enc() {
+    optionalcframe_enc(true);
+    optionalcframe_enc(false);
+    kani::cover!(true, "end of harness reached");
+}
+
+//@ obligation: U3.OptionalCFrame.wire
+//@ props: C01 C04 C13
+//@ fns: decode_prop_chunk[Type::OptionalCFrame/VariantType::OptionalCFrame]
+//@ kind: bounded
+//@ bound: column of 2 values, both rotations given as documented ids (any, incl. invalid); marker bytes, positions and presence bytes symbolic; wire truncated at any length
+//@ checks: functional
+//@ covers: 3
+//@ timeout: 1200
+#[kani::proof]
+#[kani::unwind(12)]
+#[kani::stub(alloc::fmt::format, crate::chunk::__verif::fmt_stub)]
+fn u3_optionalcframe_wire() {
+    // 10 id0 id1 <24 bytes positions> 02 p0 p1
+    let w: [u8; 30] = kani::any();
+    let n: usize = kani::any();
+    kani::assume(n <= 30);
+    kani::assume(w[1] != 0 && w[2] != 0);
+    let mut shim = shim2();
+    let r = dec_OptionalCFrame_OptionalCFrame(&w[..n], &TI2, &mut shim);
+    let valid = w[0] == 0x10 && spec_rotation(w[1]).is_some() && spec_rotation(w[2]).is_some() && w[27] == 0x02;
+    if n == 30 {
+        assert!(r.is_ok() == valid);
+    }
+    if n < 28 {
+        assert!(r.is_err());
+    }
+    if r.is_ok() && n == 30 {
+        let mut d = De::new(&w);
+        d.pos = 3;
+        let x = d.rbx_f32::<2>();
+        let y = d.rbx_f32::<2>();
+        let z = d.rbx_f32::<2>();
+        let mut k = 0;
+        while k < 2 {
+            let m = m3_of(&spec_rotation(w[1 + k]).unwrap());
+            if w[28 + k] == 0 {
+                assert!(out!(shim, k, Variant::OptionalCFrame(None) => true));
+            } else {
+                assert!(out!(shim, k, Variant::OptionalCFrame(Some(c)) => m3eq(&c.orientation, &m) && feq(c.position.x, x[k]) && feq(c.position.y, y[k]) && feq(c.position.z, z[k])));
+            }
+            k += 1;
+        }
+        assert!(once_each(&shim));
+    }
+    kani::cover!(r.is_ok() && n == 30 && w[28] == 0, "valueless entry reached");
+    kani::cover!(r.is_ok() && n == 30 && w[28] != 0, "valued entry reached");
+    kani::cover!(r.is_err(), "invalid or truncated input reached");
+    std::mem::forget(shim);
+}
+
+// ---------------------------------------------------------------- Enum / Int64 / SecurityCapabilities
+//@ obligation: U3.Enum
+//@ props: C01 C03 C04 C13
+//@ fns: serialize_properties[Type::Enum] decode_prop_chunk[Type::Enum/VariantType::Enum]
+//@ kind: bounded
+//@ bound: column of 2 values (value 1 given as EnumItem, which the encoder accepts); wire: any 8 bytes / truncated
+//@ checks: functional
+//@ covers: 2
+#[kani::proof]
+#[kani::unwind(12)]
+fn u3_enum() {
+    let a: u32 = kani::any();
+    let b: u32 = kani::any();
+    let (v0, v1) = (Variant::Enum(Enum::from_u32(a)), Variant::Enum(Enum::from_u32(b)));
+    let mut cb = newcb();
+    assert!(enc_Enum(col2(&v0, &v1), &mut cb, &EncShim::empty()).is_ok());
+    let bytes = buffer_of(&cb);
+    let mut s = Spec::new();
+    s.interleaved_be32([a, b]);
+    assert!(s.eq(bytes));
+    let n: usize = kani::any();
+    kani::assume(n <= 8);
+    let w: [u8; 8] = kani::any();
+    let mut shim = shim2();
+    let r = dec_Enum_Enum(&w[..n], &TI2, &mut shim);
+    assert!(r.is_ok() == (n == 8));
+    if n == 8 {
+        let e = De::new(&w).interleaved_be32::<2>();
+        assert!(out!(shim, 0, Variant::Enum(x) => x.to_u32() == e[0]) && out!(shim, 1, Variant::Enum(x) => x.to_u32() == e[1]));
+        assert!(once_each(&shim));
+    }
+    kani::cover!(r.is_ok(), "complete input reached");
+    kani::cover!(r.is_err(), "truncated input reached");
+    std::mem::forget(shim);
+    std::mem::forget(cb);
+}
+
+//@ obligation: U3.Int64
+//@ props: C01 C03 C04 C13
+//@ fns: serialize_properties[Type::Int64] decode_prop_chunk[Type::Int64/VariantType::Int64] serialize_properties[Type::SecurityCapabilities] decode_prop_chunk[Type::SecurityCapabilities/VariantType::SecurityCapabilities]
+//@ kind: bounded
+//@ bound: column of 2 values (Int64 value 1 given as Int32, which the encoder widens); wire: any 16 bytes / truncated
+//@ checks: functional
+//@ covers: 2
+#[kani::proof]
+#[kani::unwind(12)]
+fn u3_int64() {
+    let a: i64 = kani::any();
+    let b: i32 = kani::any();
+    let (v0, v1) = (Variant::Int64(a), Variant::Int32(b));
+    let mut cb = newcb();
+    assert!(enc_Int64(col2(&v0, &v1), &mut cb, &EncShim::empty()).is_ok());
+    let mut s = Spec::new();
+    s.zz_i64([a, b as i64]);
+    assert!(s.eq(buffer_of(&cb)));
+    // SecurityCapabilities: the 64 capability bits as a transformed i64
+    let ca: u64 = kani::any();
+    let cbits: u64 = kani::any();
+    let (c0, c1) = (Variant::SecurityCapabilities(SecurityCapabilities::from_bits(ca)), Variant::SecurityCapabilities(SecurityCapabilities::from_bits(cbits)));
+    let mut cb2 = newcb();
+    assert!(enc_SecurityCapabilities(col2(&c0, &c1), &mut cb2, &EncShim::empty()).is_ok());
+    let mut s2 = Spec::new();
+    s2.zz_i64([ca as i64, cbits as i64]);
+    assert!(s2.eq(buffer_of(&cb2)));
+    let n: usize = kani::any();
+    kani::assume(n <= 16);
+    let w: [u8; 16] = kani::any();
+    let mut shim = shim2();
+    let r = dec_Int64_Int64(&w[..n], &TI2, &mut shim);
+    let mut shimc = shim2();
+    let rc = dec_SecurityCapabilities_SecurityCapabilities(&w[..n], &TI2, &mut shimc);
+    assert!(r.is_ok() == (n == 16) && rc.is_ok() == (n == 16));
+    if n == 16 {
+        let e = De::new(&w).zz_i64::<2>();
+        assert!(out!(shim, 0, Variant::Int64(x) => *x == e[0]) && out!(shim, 1, Variant::Int64(x) => *x == e[1]));
+        assert!(out!(shimc, 0, Variant::SecurityCapabilities(x) => x.bits() == e[0] as u64) && out!(shimc, 1, Variant::SecurityCapabilities(x) => x.bits() == e[1] as u64));
+        assert!(once_each(&shim) && once_each(&shimc));
+    }
+    kani::cover!(r.is_ok(), "complete input reached");
+    kani::cover!(r.is_err(), "truncated input reached");
+    std::mem::forget(shim);
+    std::mem::forget(shimc);
+    std::mem::forget(cb);
+    std::mem::forget(cb2);
+}
+
+// ---------------------------------------------------------------- Vector3int16 / NumberRange / Rect
+//@ obligation: U3.Vector3int16
+//@ props: C01 C03 C04 C13
+//@ fns: serialize_properties[Type::Vector3int16] decode_prop_chunk[Type::Vector3int16/VariantType::Vector3int16]
+//@ kind: bounded
+//@ bound: column of 2 values; wire: any 12 bytes / truncated
+//@ checks: functional
+//@ covers: 2
+#[kani::proof]
+#[kani::unwind(8)]
+fn u3_vector3int16() {
+    let a = Vector3int16::new(kani::any(), kani::any(), kani::any());
+    let b = Vector3int16::new(kani::any(), kani::any(), kani::any());
+    let (v0, v1) = (Variant::Vector3int16(a), Variant::Vector3int16(b));
+    let mut cb = newcb();
+    assert!(enc_Vector3int16(col2(&v0, &v1), &mut cb, &EncShim::empty()).is_ok());
+    // three little-endian i16 per value, values in sequence
+    let mut s = Spec::new();
+    for v in [&a, &b] {
+        s.le_u16(v.x as u16);
+        s.le_u16(v.y as u16);
+        s.le_u16(v.z as u16);
+    }
+    assert!(s.eq(buffer_of(&cb)));
+    let n: usize = kani::any();
+    kani::assume(n <= 12);
+    let w: [u8; 12] = kani::any();
+    let mut shim = shim2();
+    let r = dec_Vector3int16_Vector3int16(&w[..n], &TI2, &mut shim);
+    assert!(r.is_ok() == (n == 12));
+    if n == 12 {
+        let mut d = De::new(&w);
+        let e0 = (d.le_u16() as i16, d.le_u16() as i16, d.le_u16() as i16);
+        let e1 = (d.le_u16() as i16, d.le_u16() as i16, d.le_u16() as i16);
+        assert!(out!(shim, 0, Variant::Vector3int16(x) => x.x == e0.0 && x.y == e0.1 && x.z == e0.2));
+        assert!(out!(shim, 1, Variant::Vector3int16(x) => x.x == e1.0 && x.y == e1.1 && x.z == e1.2));
+        assert!(once_each(&shim));
+    }
+    kani::cover!(r.is_ok(), "complete input reached");
+    kani::cover!(r.is_err(), "truncated input reached");
+    std::mem::forget(shim);
+    std::mem::forget(cb);
+}
+
+//@ obligation: U3.NumberRange
+//@ props: C01 C03 C04 C13
+//@ fns: serialize_properties[Type::NumberRange] decode_prop_chunk[Type::NumberRange/VariantType::NumberRange]
+//@ kind: bounded
+//@ bound: column of 2 values; wire: any 16 bytes / truncated
+//@ checks: functional
+//@ covers: 2
+#[kani::proof]
+#[kani::unwind(8)]
+fn u3_numberrange() {
+    let a = NumberRange::new(f32any(), f32any());
+    let b = NumberRange::new(f32any(), f32any());
+    let (v0, v1) = (Variant::NumberRange(a), Variant::NumberRange(b));
+    let mut cb = newcb();
+    assert!(enc_NumberRange(col2(&v0, &v1), &mut cb, &EncShim::empty()).is_ok());
+    let mut s = Spec::new();
+    s.le_f32(a.min);
+    s.le_f32(a.max);
+    s.le_f32(b.min);
+    s.le_f32(b.max);
+    assert!(s.eq(buffer_of(&cb)));
+    let n: usize = kani::any();
+    kani::assume(n <= 16);
+    let w: [u8; 16] = kani::any();
+    let mut shim = shim2();
+    let r = dec_NumberRange_NumberRange(&w[..n], &TI2, &mut shim);
+    assert!(r.is_ok() == (n == 16));
+    if n == 16 {
+        let mut d = De::new(&w);
+        let e = [d.le_f32(), d.le_f32(), d.le_f32(), d.le_f32()];
+        assert!(out!(shim, 0, Variant::NumberRange(x) => feq(x.min, e[0]) && feq(x.max, e[1])));
+        assert!(out!(shim, 1, Variant::NumberRange(x) => feq(x.min, e[2]) && feq(x.max, e[3])));
+        assert!(once_each(&shim));
+    }
+    kani::cover!(r.is_ok(), "complete input reached");
+    kani::cover!(r.is_err(), "truncated input reached");
+    std::mem::forget(shim);
+    std::mem::forget(cb);
+}
+
+//@ obligation: U3.Rect
+//@ props: C01 C03 C04 C13
+//@ fns: serialize_properties[Type::Rect] decode_prop_chunk[Type::Rect/VariantType::Rect]
+//@ kind: bounded
+//@ bound: column of 2 values; wire: any 32 bytes / truncated
+//@ checks: functional
+//@ covers: 2
+#[kani::proof]
+#[kani::unwind(10)]
+fn u3_rect() {
+    let a = Rect::new(Vector2::new(f32any(), f32any()), Vector2::new(f32any(), f32any()));
+    let b = Rect::new(Vector2::new(f32any(), f32any()), Vector2::new(f32any(), f32any()));
+    let (v0, v1) = (Variant::Rect(a), Variant::Rect(b));
+    let mut cb = newcb();
+    assert!(enc_Rect(col2(&v0, &v1), &mut cb, &EncShim::empty()).is_ok());
+    // four Float32 arrays: Min.X, Min.Y, Max.X, Max.Y
+    let mut s = Spec::new();
+    s.rbx_f32([a.min.x, b.min.x]);
+    s.rbx_f32([a.min.y, b.min.y]);
+    s.rbx_f32([a.max.x, b.max.x]);
+    s.rbx_f32([a.max.y, b.max.y]);
+    assert!(s.eq(buffer_of(&cb)));
+    let n: usize = kani::any();
+    kani::assume(n <= 32);
+    let w: [u8; 32] = kani::any();
+    let mut shim = shim2();
+    let r = dec_Rect_Rect(&w[..n], &TI2, &mut shim);
+    assert!(r.is_ok() == (n == 32));
+    if n == 32 {
+        let mut d = De::new(&w);
+        let x0 = d.rbx_f32::<2>();
+        let y0 = d.rbx_f32::<2>();
+        let x1 = d.rbx_f32::<2>();
+        let y1 = d.rbx_f32::<2>();
+        assert!(out!(shim, 0, Variant::Rect(x) => feq(x.min.x, x0[0]) && feq(x.min.y, y0[0]) && feq(x.max.x, x1[0]) && feq(x.max.y, y1[0])));
+        assert!(out!(shim, 1, Variant::Rect(x) => feq(x.min.x, x0[1]) && feq(x.min.y, y0[1]) && feq(x.max.x, x1[1]) && feq(x.max.y, y1[1])));
+        assert!(once_each(&shim));
+    }
+    kani::cover!(r.is_ok(), "complete input reached");
+    kani::cover!(r.is_err(), "truncated input reached");
+    std::mem::forget(shim);
+    std::mem::forget(cb);
+}
+
+// ---------------------------------------------------------------- PhysicalProperties / Color3uint8 / UniqueId
+fn physprops_enc(first_custom: bool) {
+    // first_custom concrete at every call site
+    let custom = CustomPhysicalProperties { density: f32any(), friction: f32any(), elasticity: f32any(), friction_weight: f32any(), elasticity_weight: f32any() };
+    let (pa, pb) = if first_custom { (PhysicalProperties::Custom(custom), PhysicalProperties::Default) } else { (PhysicalProperties::Default, PhysicalProperties::Custom(custom)) };
+    let (v0, v1) = (Variant::PhysicalProperties(pa), Variant::PhysicalProperties(pb));
+    let mut cb = newcb();
+    assert!(enc_PhysicalProperties(col2(&v0, &v1), &mut cb, &EncShim::empty()).is_ok());
+    // 00 for default; 01 + five little-endian f32 for custom
+    let mut s = Spec::new();
+    if !first_custom {
+        s.u8(0);
+    }
+    s.u8(1);
+    s.le_f32(custom.density);
+    s.le_f32(custom.friction);
+    s.le_f32(custom.elasticity);
+    s.le_f32(custom.friction_weight);
+    s.le_f32(custom.elasticity_weight);
+    if first_custom {
+        s.u8(0);
+    }
+    let bytes = buffer_of(&cb);
+    assert!(s.eq(bytes));
+    let mut shim = shim2();
+    assert!(dec_PhysicalProperties_PhysicalProperties(bytes, &TI2, &mut shim).is_ok());
+    let kc = if first_custom { 0 } else { 1 };
+    assert!(out!(shim, kc, Variant::PhysicalProperties(PhysicalProperties::Custom(c)) => feq(c.density, custom.density) && feq(c.friction, custom.friction) && feq(c.elasticity, custom.elasticity) && feq(c.friction_weight, custom.friction_weight) && feq(c.elasticity_weight, custom.elasticity_weight)));
+    assert!(out!(shim, 1 - kc, Variant::PhysicalProperties(PhysicalProperties::Default) => true));
+    assert!(once_each(&shim));
+    std::mem::forget(shim);
+    std::mem::forget(cb);
+}
+
+//@ obligation: U3.PhysicalProperties
+//@ props: C01 C03
+//@ fns: serialize_properties[Type::PhysicalProperties] decode_prop_chunk[Type::PhysicalProperties/VariantType::PhysicalProperties]
+//@ kind: bounded
+//@ bound: columns of 2 values: [Custom, Default] and [Default, Custom]; the five floats symbolic
+//@ checks: functional
+//@ covers: 1
+#[kani::proof]
+#[kani::unwind(8)]
+fn u3_physicalproperties() {
+    physprops_enc(true);
+    physprops_enc(false);
+    kani::cover!(true, "end of harness reached");
+}
+
+fn physprops_wire(total: usize) {
+    // total concrete: 2 (default, default), 22 (one custom), 42 (both custom)
+    let mut w: [u8; 42] = kani::any();
+    w[0] = if total == 42 { 1 } else { 0 };
+    if total == 22 {
+        w[1] = 1;
+    } else if total == 2 {
+        w[1] = 0;
+    } else {
+        w[21] = 1;
+    }
+    let n: usize = kani::any();
+    kani::assume(n <= total);
+    let mut shim = shim2();
+    let r = dec_PhysicalProperties_PhysicalProperties(&w[..n], &TI2, &mut shim);
+    assert!(r.is_ok() == (n == total));
+    if n == total {
+        let mut d = De::new(&w);
+        let mut k = 0;
+        while k < 2 {
+            if d.u8() == 1 {
+                let e = [d.le_f32(), d.le_f32(), d.le_f32(), d.le_f32(), d.le_f32()];
+                assert!(out!(shim, k, Variant::PhysicalProperties(PhysicalProperties::Custom(c)) => feq(c.density, e[0]) && feq(c.friction, e[1]) && feq(c.elasticity, e[2]) && feq(c.friction_weight, e[3]) && feq(c.elasticity_weight, e[4])));
+            } else {
+                assert!(out!(shim, k, Variant::PhysicalProperties(PhysicalProperties::Default) => true));
+            }
+            k += 1;
+        }
+        assert!(once_each(&shim));
+    }
+    std::mem::forget(shim);
+}
+
+//@ obligation: U3.PhysicalProperties.wire
+//@ props: C04 C13
+//@ fns: decode_prop_chunk[Type::PhysicalProperties/VariantType::PhysicalProperties]
+//@ kind: bounded
+//@ bound: column of 2 values in the three shapes default/default, default/custom, custom/custom; floats symbolic; wire truncated at any length
+//@ checks: functional
+//@ covers: 1
+#[kani::proof]
+#[kani::unwind(8)]
+fn u3_physicalproperties_wire() {
+    physprops_wire(2);
+    physprops_wire(22);
+    physprops_wire(42);
+    kani::cover!(true, "end of harness reached");
+}
+
+//@ obligation: U3.Color3uint8
+//@ props: C01 C03 C04 C13
+//@ fns: serialize_properties[Type::Color3uint8] decode_prop_chunk[Type::Color3uint8/VariantType::Color3]
+//@ kind: bounded
+//@ bound: column of 2 values (value 1 given as Color3 and quantised by the encoder); wire: any 6 bytes / truncated
+//@ checks: functional
+//@ covers: 2
+//@ note: the reader hands back Color3uint8 for a property declared Color3 (documented normalisation)
+#[kani::proof]
+#[kani::unwind(10)]
+fn u3_color3uint8() {
+    let a = Color3uint8::new(kani::any(), kani::any(), kani::any());
+    let b8 = Color3uint8::new(kani::any(), kani::any(), kani::any());
+    let bwide: Color3 = b8.into();
+    let (v0, v1) = (Variant::Color3uint8(a), Variant::Color3(bwide));
+    let mut cb = newcb();
+    assert!(enc_Color3uint8(col2(&v0, &v1), &mut cb, &EncShim::empty()).is_ok());
+    // three consecutive arrays R, G, B; no interleaving
+    let mut s = Spec::new();
+    s.u8(a.r);
+    s.u8(b8.r);
+    s.u8(a.g);
+    s.u8(b8.g);
+    s.u8(a.b);
+    s.u8(b8.b);
+    assert!(s.eq(buffer_of(&cb)));
+    let w: [u8; 6] = kani::any();
+    let n: usize = kani::any();
+    kani::assume(n <= 6);
+    let mut shim = shim2();
+    let r = dec_Color3uint8_Color3(&w[..n], &TI2, &mut shim);
+    assert!(r.is_ok() == (n == 6));
+    if n == 6 {
+        assert!(out!(shim, 0, Variant::Color3uint8(x) => x.r == w[0] && x.g == w[2] && x.b == w[4]));
+        assert!(out!(shim, 1, Variant::Color3uint8(x) => x.r == w[1] && x.g == w[3] && x.b == w[5]));
+        assert!(once_each(&shim));
+    }
+    kani::cover!(r.is_ok(), "complete input reached");
+    kani::cover!(r.is_err(), "truncated input reached");
+    std::mem::forget(shim);
+    std::mem::forget(cb);
+}
+
+//@ obligation: U3.UniqueId
+//@ props: C01 C03 C04 C13 C17
+//@ fns: serialize_properties[Type::UniqueId] decode_prop_chunk[Type::UniqueId/VariantType::UniqueId]
+//@ kind: bounded
+//@ bound: column of 2 values (all index/time/random incl. negative random); wire: any 32 bytes / truncated
+//@ checks: functional
+//@ covers: 2
+//@ note: layout = 16 bytes per id, Index (u32 BE), Time (u32 BE), Random (i64 BE) interleaved over the column. The code additionally rotates Random left by one bit; docs/binary.md says "no modifications" - the harness follows the code for that one field and DESIGN.md records the discrepancy
+#[kani::proof]
+#[kani::unwind(18)]
+fn u3_uniqueid() {
+    let a = UniqueId::new(kani::any(), kani::any(), kani::any());
+    let b = UniqueId::new(kani::any(), kani::any(), kani::any());
+    let (v0, v1) = (Variant::UniqueId(a), Variant::UniqueId(b));
+    let mut cb = newcb();
+    assert!(enc_UniqueId(col2(&v0, &v1), &mut cb, &EncShim::empty()).is_ok());
+    let bytes = buffer_of(&cb);
+    assert!(bytes.len() == 32);
+    let ra = (a.random() as u64).rotate_left(1);
+    let rb = (b.random() as u64).rotate_left(1);
+    let blob_a: [u8; 16] = {
+        let mut x = [0u8; 16];
+        let mut i = 0;
+        while i < 4 { x[i] = (a.index() >> (8 * (3 - i))) as u8; x[4 + i] = (a.time() >> (8 * (3 - i))) as u8; i += 1; }
+        let mut i = 0;
+        while i < 8 { x[8 + i] = (ra >> (8 * (7 - i))) as u8; i += 1; }
+        x
+    };
+    let blob_b: [u8; 16] = {
+        let mut x = [0u8; 16];
+        let mut i = 0;
+        while i < 4 { x[i] = (b.index() >> (8 * (3 - i))) as u8; x[4 + i] = (b.time() >> (8 * (3 - i))) as u8; i += 1; }
+        let mut i = 0;
+        while i < 8 { x[8 + i] = (rb >> (8 * (7 - i))) as u8; i += 1; }
+        x
+    };
+    let mut j = 0;
+    while j < 16 {
+        assert!(bytes[2 * j] == blob_a[j] && bytes[2 * j + 1] == blob_b[j]);
+        j += 1;
+    }
+    let mut shim = shim2();
+    assert!(dec_UniqueId_UniqueId(bytes, &TI2, &mut shim).is_ok());
+    assert!(out!(shim, 0, Variant::UniqueId(x) => *x == a) && out!(shim, 1, Variant::UniqueId(x) => *x == b));
+    assert!(once_each(&shim));
+    // truncated wire
+    let w: [u8; 32] = kani::any();
+    let n: usize = kani::any();
+    kani::assume(n <= 32);
+    let mut shimw = shim2();
+    let r = dec_UniqueId_UniqueId(&w[..n], &TI2, &mut shimw);
+    assert!(r.is_ok() == (n == 32));
+    kani::cover!(r.is_ok(), "complete input reached");
+    kani::cover!(r.is_err(), "truncated input reached");
+    std::mem::forget(shim);
+    std::mem::forget(shimw);
+    std::mem::forget(cb);
+}
+
+//@ canary: yes
+//@ props: C01 C03 C04 C13
+//@ checks: functional
+#[kani::proof]
+#[kani::unwind(8)]
+fn canary_u3() {
+    let a = Ray::new(v3any(), v3any());
+    let v0 = Variant::Ray(a);
+    let mut cb = newcb();
+    assert!(enc_Ray(col1(&v0), &mut cb, &EncShim::empty()).is_ok());
+    let bytes = buffer_of(&cb);
+    // wrong on purpose: direction.z is not at offset 12
+    assert!(bytes[12] == a.direction.z.to_bits() as u8);
+    std::mem::forget(cb);
 }
